@@ -668,6 +668,10 @@ class Opts:
 
 # ----------------------------------------------------------------------------- interpreter
 class Interp:
+    # R-PROFILE collectors (set by the C20 spec in its worker processes): executed profile-dependent check sites / failing ones
+    PD_EXEC = None
+    PD_FAIL = None
+
     def __init__(self, db, opts=None):
         self.db = db
         self.opts = opts or Opts()
@@ -693,6 +697,8 @@ class Interp:
                 L[i + 1] = a
         fr = Frame(fn, fn, L, {'local': 0, 'proj': []}, None, gsubst)
         state.frames.append(fr)
+        if Interp.PD_EXEC is not None:
+            Interp.PD_EXEC.add((fn['id'], -1))
 
     def explore(self, state):
         """run all paths from the given state; returns list of Outcome"""
@@ -762,6 +768,9 @@ class Interp:
                 res = self.terminator(st, fr, t, blk)
             except PanicExc as p:
                 site = self.cur_site(st)
+                if p.profile_dependent and Interp.PD_FAIL is not None:
+                    root = st.frames[1].fn['id'] if len(st.frames) > 1 and st.frames[1].fn else '?'
+                    Interp.PD_FAIL.append((fr.fn['id'], fr.bb, p.kind, dict(p.info or {}), site, root))
                 st.journal = None
                 return Outcome('panic', p.kind, st, info=p.info, site=p.site or site, profile_dependent=p.profile_dependent)
             st.commit()
@@ -834,6 +843,8 @@ class Interp:
             tr = st.truth(v)
             kind = t['kind']
             pd = kind in ('Overflow', 'OverflowNeg') and t.get('op') not in ('Div', 'Rem')
+            if pd and Interp.PD_EXEC is not None:
+                Interp.PD_EXEC.add((fr.fn['id'], fr.bb))
             if self.opts.track_sites:
                 key = (fr.fn['id'], fr.bb, kind, t.get('op'))
                 self.sites_seen.setdefault(key, set()).add('pass' if tr == t['expected'] else 'fail')
@@ -954,6 +965,8 @@ class Interp:
         if 'static' in c:
             return self.static_ref(st, c['static'])
         ty = c.get('ty', '?')
+        if 'str' in c:
+            return SliceVal(K(len(c['str'].encode()), 'usize'), 'str:' + c['str'][:40])
         if ty in ('&str', "&'static str"):
             return SliceVal(st.fresh('usize', 0, 2**40, 'strlen'), 'str')
         return Opaque(ty, str(c.get('opaque'))[:40])
@@ -1503,10 +1516,14 @@ class Interp:
                 raise Stop('arity mismatch calling %s' % fid)
             nf = Frame(fn, fn, L, dest, target, gs)
             st.frames.append(nf)
+            if Interp.PD_EXEC is not None:
+                Interp.PD_EXEC.add((fid, -1))
             return None
         m = self.models.lookup(path, fid)
         if m is None:
             raise Stop('no model: %s' % path)
+        if Interp.PD_EXEC is not None and self.models.is_inherit_overflow(path):
+            Interp.PD_EXEC.add((fr.fn['id'], fr.bb))
         val = m(self, st, fr, args, path, gargs, t)
         if val is CALL_PUSHED:
             return None
